@@ -465,7 +465,18 @@ def extract_docstring(node: Str) -> Tuple[int, str]:
         # TODO: remove me when python3.7 is not supported
         value = node.s
     lineno = extract_docstring_linenum(node)
-    return lineno, inspect.cleandoc(value)
+    return lineno, inspect.cleandoc(encodable_text(value))
+
+def encodable_text(text: str) -> str:
+    """
+    Replace the characters that can't be encoded in UTF-8 (lone surrogates)
+    by their escape sequence, such that the text can always be written to a file.
+    """
+    try:
+        text.encode('utf-8')
+    except UnicodeEncodeError:
+        text = text.encode('utf-8', 'backslashreplace').decode('utf-8')
+    return text
 
 
 def infer_type(expr: ast.expr) -> Optional[ast.expr]:
